@@ -138,6 +138,10 @@ STRUCTS = {
     "peps22": dict(cls="peps", Lx=2, Ly=2, D=2),
     "peps23": dict(cls="peps", Lx=2, Ly=3, D=2),
     "peps32": dict(cls="peps", Lx=3, Ly=2, D=2),
+    # wide / tall lattices whose tensors have norm ~ 1e3, so that the exponents an
+    # equalize_norms boundary contraction strips are far from 0 (routes 2d_eq only)
+    "peps24": dict(cls="peps", Lx=2, Ly=4, D=2, scale=220.0),
+    "peps42": dict(cls="peps", Lx=4, Ly=2, D=2, scale=220.0),
     "peps3d": dict(cls="peps3d", Lx=2, Ly=2, Lz=2, D=2),
     "hyper": dict(cls="hyper"),
 }
@@ -208,11 +212,11 @@ def _adjacency(tn, sites):
     return adj
 
 
-def _refill(tn, name):
+def _refill(tn, name, scale=1.0):
     """replace every array by alphabet data (generic complex), keyed by the
     position of the tensor: VERIF_SEED selects the fill."""
     for n, t in enumerate(tn):
-        t.modify(data=fill("generic", t.shape, "complex128", key=("c13", name, n)))
+        t.modify(data=scale * fill("generic", t.shape, "complex128", key=("c13", name, n)))
     return tn
 
 
@@ -238,7 +242,7 @@ def _build(name):
         return tn, tuple(range(L))
     if cls == "peps":
         tn = qtn.PEPS.rand(sp["Lx"], sp["Ly"], bond_dim=sp["D"], phys_dim=2, seed=7, dtype="complex128")
-        _refill(tn, name)
+        _refill(tn, name, sp.get("scale", 1.0))
         return tn, tuple((i, j) for i in range(sp["Lx"]) for j in range(sp["Ly"]))
     if cls == "peps3d":
         tn = qtn.PEPS3D.rand(sp["Lx"], sp["Ly"], sp["Lz"], bond_dim=sp["D"], phys_dim=2, seed=7, dtype="complex128")
@@ -1205,6 +1209,83 @@ def r_info_hist(st, cell, out):
                             good = _check_step(out, st, entry, kind, got, data, wh, n, sub, RTOL, **kw)
                         if not good:
                             break
+        # the EXPLICIT loop / cluster list changes between the two queries through
+        # one info (documented: "useful when computing various expectations with
+        # different sets of loops"): the second list contains the whole network, so
+        # the second answer is exact whatever the first (possibly approximate,
+        # unchecked) query left in the cache.  Kept clear of the two open cache
+        # findings: operator a function of the site tuple only, no 'global'.
+        thorough = cell.get("tier") == "thorough"
+        whole = tuple(st.sites)
+
+        def keysites(nm, wh):
+            ks = list(wh)
+            if nm != "one":
+                ks += [i for i in _second_where(st, wh) if i not in ks]
+            return ks
+
+        def small(nm, wh):
+            """a proper sub-cluster containing every site the step asks about (+ one neighbour)"""
+            ks = keysites(nm, wh)
+            sites = [st.sites[i] for i in ks]
+            for nb in sorted(st.graph[sites[0]], key=repr):
+                if nb not in sites:
+                    sites.append(nb)
+                    break
+            return tuple(sites) if len(set(sites)) < st.N else None
+
+        if fam == "gloop":
+            names = ["whole", "small", "small+whole"] + (["int"] if st.no_dangling else [])
+
+            def resolve(name, nm, wh):
+                if name == "whole":
+                    return (whole,), True
+                if name == "int":
+                    return st.N, True
+                sm = small(nm, wh)
+                if sm is None:
+                    return None, False
+                return ((sm,), False) if name == "small" else ((sm, whole), True)
+
+        else:
+            names = ["explicit", "none", "int"]
+            all_loops = tuple(st.tn.gen_sloops(st.N))
+
+            def resolve(name, nm, wh):
+                if name == "explicit":
+                    return all_loops, True
+                if name == "int":
+                    return st.N, True
+                return (), False
+
+        hsteps = [x for x in steps if x in ("one", "many")] + (["norm"] if (thorough and "norm" in steps) else [])
+        for a, b in itertools.product(hsteps, repeat=2):
+            for la, lb in itertools.permutations(names, 2):
+                for second in ("reflected", "same"):
+                    for n in (True, False) if thorough else (True,):
+                        wb = w2 if second == "reflected" else where
+                        ga, _ = resolve(la, a, where)
+                        gb, checked = resolve(lb, b, wb)
+                        if ga is None or gb is None or not checked:
+                            continue
+                        info = {}
+                        sub0 = _sub(fam=fam, h="%s>%s" % (a, b), loops="%s>%s" % (la, lb), second=second, normalized=n)
+                        try:
+                            steps[a](info, where, n, ga)  # first query: only its effect on the cache matters
+                        except Exception as ex:
+                            out.bad("%s-expansion" % fam, "crash", sub0 + ",step=1", "step %s raised %s: %s" % (a, type(ex).__name__, str(ex)[:200]), exc=type(ex).__name__)
+                            continue
+                        sub = sub0 + ",step=2"
+                        kw = dict(step=2)
+                        try:
+                            entry, kind, got, data = steps[b](info, wb, n, gb)
+                        except Exception as ex:
+                            out.bad("%s-expansion" % fam, "crash", sub, "step %s raised %s: %s" % (b, type(ex).__name__, str(ex)[:200]), exc=type(ex).__name__, **kw)
+                            continue
+                        if kind == "norm":
+                            out.scalar(entry, sub + ",unnormalised", got, np.sqrt(st.norm2), **kw)
+                        else:
+                            _check_step(out, st, entry, kind, got, data, wb, n, sub, RTOL, **kw)
         # same sites, ANOTHER operator, same info (documented: reuse while the
         # network and gauges stay the same)
         one = steps["one"]
@@ -1310,6 +1391,70 @@ def r_2d_norm(st, cell, out):
                 out.bad("normalize", "value", sub2, "normalised state differs from psi/sqrt(<psi|psi>): <n|n>=%r, rel.err %.2e" % (float(np.vdot(v, v).real), ref.relerr(v, want)))
             else:
                 out.ok("normalize", sub2)
+
+
+def r_2d_eq(st, cell, out):
+    """plaquette route with equalize_norms (the boundary contractions then strip
+    scale into exponents that every environment piece has to carry along) on
+    lattices with Lx or Ly >= 4: horizontal, vertical and diagonal terms,
+    row-first and column-first environment routines, normalised or not.  The
+    input state has exponent 0: this is NOT the 'exponent-ignored' finding."""
+    if st.cls != "peps" or st.gauged or st.expo:
+        return
+    where = cell["where"]
+    if len(where) > 2:
+        return
+    tier = cell.get("tier", "quick")
+    tn = st.tn
+    w = st.w(where)
+    if len(where) == 2:
+        if not w[0] < w[1]:
+            return  # (documented KeyError rejection: probed by route 2d_plaq)
+        if tier != "thorough" and max(abs(w[0][0] - w[1][0]), abs(w[0][1] - w[1][1])) > 1:
+            return  # quick: nearest and diagonal neighbours; thorough: every pair
+    G = _op(st, where)
+    w2 = ((max(where) + 1) % st.N,)
+    G2 = _op(st, w2, tag="G2")
+    k1 = w[0] if len(where) == 1 else w
+    k2 = st.w(w2)[0]
+    terms = {k1: G, k2: G2}
+    info = ((k1, G, where), (k2, G2, w2))
+    envs = ("mps/None", "full-bond/64", "mps/64") + (("mps/64/1layer",) if tier == "thorough" else ())
+    for o in _prod(equalize_norms=(False, True, 1.0), normalized=(True, False), autogroup=(True, False), env=envs):
+        # the full-bond sweep raises an explicit NotImplementedError for equalize_norms
+        # (probed once per lattice below); mps/64 takes its place there
+        if (o["env"] == "full-bond/64" and o["equalize_norms"]) or (o["env"] == "mps/64" and not o["equalize_norms"]):
+            continue
+        mode, mb = o["env"].split("/")[:2]
+        kwargs = dict(mode=mode, max_bond=None if mb == "None" else int(mb), cutoff=0.0, equalize_norms=o["equalize_norms"], normalized=o["normalized"], autogroup=o["autogroup"], return_all=True)
+        if o["env"].endswith("1layer"):
+            kwargs["layer_tags"] = None
+        sub = _sub(**o)
+        okc, got = _call(out, "compute_local_expectation[2D]", sub, lambda: tn.compute_local_expectation(terms, **kwargs))
+        if not okc:
+            continue
+        n = o["normalized"]
+        try:
+            got = {k: (e / nn if n else e) for k, (e, nn) in got.items()}
+        except Exception:
+            out.bad("compute_local_expectation[2D]", "type", sub, "return_all=True did not give {where: (expec, norm)}")
+            continue
+        _check_terms(out, "compute_local_expectation[2D]", sub, got, info, n, True, rtol=RTOL_SVD)
+    if where == (0,):
+        okc, got = _call(out, "compute_local_expectation[2D]", "full-bond+equalize_norms", lambda: tn.compute_local_expectation(terms, mode="full-bond", max_bond=64, cutoff=0.0, equalize_norms=True), rejections=(NotImplementedError,))
+        if okc:
+            out.scalar("compute_local_expectation[2D]", "full-bond+equalize_norms", got, sum(_expec(st, g, wh, False) for _, g, wh in info), rtol=RTOL_SVD, scale=st.norm2)
+        for o in _prod(equalize_norms=(False, True, 1.0), env=envs, canonize=(True, False)):
+            if o["env"] == "full-bond/64" and o["equalize_norms"]:
+                continue
+            mode, mb = o["env"].split("/")[:2]
+            kwargs = dict(mode=mode, max_bond=None if mb == "None" else int(mb), cutoff=0.0, equalize_norms=o["equalize_norms"], canonize=o["canonize"])
+            if o["env"].endswith("1layer"):
+                kwargs["layer_tags"] = None
+            sub = _sub(**o) + ",unnormalised"
+            okc, got = _call(out, "compute_norm", sub, lambda: tn.compute_norm(**kwargs))
+            if okc:
+                out.scalar("compute_norm", sub, got, st.norm2, rtol=RTOL_SVD)
 
 
 def r_2d_hist(st, cell, out):
@@ -1555,6 +1700,7 @@ ROUTES = {
     "1d_hist": (r_1d_hist, 2, False),
     "info_hist": (r_info_hist, 2, False),
     "2d_hist": (r_2d_hist, 2, False),
+    "2d_eq": (r_2d_eq, 2, False),
     "2d_plaq": (r_2d_plaq, 2, False),
     "2d_norm": (r_2d_norm, 1, True),
     "3d": (r_3d, 2, False),
@@ -1563,6 +1709,10 @@ ROUTES = {
 
 def _applicable(name, gauged, route):
     cls = STRUCTS[name]["cls"]
+    if route == "2d_eq":
+        return cls == "peps" and not gauged
+    if name in ("peps24", "peps42"):
+        return False  # scaled 8-site lattices: built for route 2d_eq only
     if route.startswith("1d_"):
         return cls == "mps" and not gauged
     if route.startswith("2d_"):
@@ -1618,12 +1768,12 @@ EXPO_THOROUGH = ("mps4", "mps4c", "tree4", "ring4", "hyper", "peps22", "peps23")
 def _tier_structs(tier):
     """(name, gauged, exponent variant)"""
     if tier == "quick":
-        base = [("mps4", False), ("mps4", True), ("mps4c", False), ("tree4", False), ("tree4", True), ("ring4", False), ("ring4", True), ("tritail", False), ("tritailw", False), ("hyper", False), ("peps22", False), ("peps22", True), ("peps23", False)]
+        base = [("mps4", False), ("mps4", True), ("mps4c", False), ("tree4", False), ("tree4", True), ("ring4", False), ("ring4", True), ("tritail", False), ("tritailw", False), ("hyper", False), ("peps22", False), ("peps22", True), ("peps23", False), ("peps24", False), ("peps42", False)]
         return [(n, g, False) for n, g in base] + [(n, False, True) for n in EXPO_QUICK]
     outl = []
     for name in STRUCTS:
         outl.append((name, False, False))
-        if STRUCTS[name]["cls"] != "hyper" and name != "tritailw":
+        if STRUCTS[name]["cls"] != "hyper" and name not in ("tritailw", "peps24", "peps42"):
             outl.append((name, True, False))
     return outl + [(n, False, True) for n in EXPO_THOROUGH]
 
@@ -1665,10 +1815,12 @@ def _cells(tier, only_routes=None, only_structs=None):
                 continue
             if route.endswith("_hist") and (e or (g and tier == "quick")):
                 continue  # histories: plain networks (thorough: also the gauged ones)
+            if route == "info_hist" and STRUCTS[name]["cls"] == "peps3d":
+                continue  # (budget: the 8-site region graphs are covered by gloop / 3d)
             if indep:
                 cells.append(dict(st=name, g=g, e=e, route=route, where=(0,), tier=tier))
                 continue
-            for k in range(1, min(_kmax(tier, name, route), 2 if e else 3) + 1):
+            for k in range(1, min(_kmax(tier, name, route), 2 if e else 3, 1 if (g and route == "info_hist") else 3) + 1):
                 for where in itertools.permutations(range(N), k):
                     cells.append(dict(st=name, g=g, e=e, route=route, where=tuple(where), tier=tier))
     return cells
@@ -1685,7 +1837,7 @@ def _op_cells(tier):
     return cells
 
 
-_COST = {"3d": 50, "info_hist": 8, "1d_hist": 10, "2d_hist": 6, "gloop": 6, "2d_plaq": 6, "1d_terms": 6, "cle_loops": 4, "lex_disp": 4, "ptr_disp": 3, "2d_norm": 5}
+_COST = {"3d": 50, "2d_eq": 12, "info_hist": 8, "1d_hist": 10, "2d_hist": 6, "gloop": 6, "2d_plaq": 6, "1d_terms": 6, "cle_loops": 4, "lex_disp": 4, "ptr_disp": 3, "2d_norm": 5}
 
 
 def _cost(c):
